@@ -115,7 +115,7 @@ func runC18(w *World, r *Report) {
 		if fn == nil || !isRepoFunc(fn) || len(fn.Blocks) == 0 {
 			return
 		}
-		n := fn.Name()
+		n := refName(fn)
 		if fn.Parent() == nil && (n == "CreateGenesis" || (n == "LoadDag" && fn.Pkg.Pkg.Name() == "accountant")) {
 			return
 		}
